@@ -563,6 +563,10 @@ PLANS = {
     'deep2pa': [["p3", "01-", "pa"], ["p3", "01-", "pa"], ["lo", "0", "pa"]],
 }
 DATETIME = ['DateTimeValueCmdObject', 'DateTimePatternValueCmdObject']
+# thorough: these get the three-value plan deep3x, the other twelve the two-value deep3y
+THREE_VALUES = ['AnalogValueCmdObject', 'BinaryOutputCmdObject', 'MultiStateOutputCmdObject',
+                'IntegerValueCmdObject', 'CharacterStringValueCmdObject', 'DateValueCmdObject',
+                'DateTimeValueCmdObject', 'AccessDoorCmdObject']
 
 
 def _groups(names, k):
@@ -574,12 +578,14 @@ def _short(classes):
 
 
 def instances(tier):
-    """measured on the repaired tree (paths / CPU s per instance, one core):
-    quick     wide1 x4 classes 250-320 / 17-20; occ+wide x3 480-970 / 15-26; deep3 324-387 / 12-20;
+    """measured on the repaired tree, one core, machine under load (paths / CPU s per instance):
+    quick     wide1 x4 classes 250-320 / 17-20; occ+wide x3 classes 480-970 / 15-26; deep3 324-387 / 12-20;
               long_seq 12 / 9; pa_element_write 48-144 / 2-5; min_hold 8 / 0.3; min_on_off 322-366 / 11-17;
-              whole tier about 10300 paths, 480 CPU s
-    thorough  deep3x 4096 / 120 (integer classes 1460 / 41); wide2 3600 / 97; deep4 slice 2187 / 62;
-              deep5 slice 1296 / 41; wide3 slice 1600 / 52; min_on_off n=3 slice 1989 / 88, n=2 m4 slice 574 / 23
+              whole tier 42 instances, about 10300 paths, 480 CPU s
+    thorough  deep3x 4096 / 120-190 (integer classes 1460 / 40); deep3y 1728 / 50-77; wide2 2979-3600 / 70-130;
+              deep4 slice 1460-2187 / 50-90; deep5 slice 1092-2275 / 31-69; wide3 slice 1600 / 47;
+              long_seq 48 / 27-51; pa_element_write 256 / 5-10; min_on_off n=2 m4 slice 574-706 / 18-30,
+              n=3 m2 slice 1376-2425 / 59-126; whole tier 132 instances, about 190000 paths, 6400 CPU s
     """
     q = tier == "quick"
     out = []
@@ -612,7 +618,7 @@ def instances(tier):
         for g in _groups(plain, 2) + [DATETIME]:
             ops(g, 'wide1', 300, own_array=False)
         for c in every:
-            ops([c], 'deep3x' if c in REPRESENTATIVE else 'deep3y', 600)
+            ops([c], 'deep3x' if c in THREE_VALUES else 'deep3y', 600)
         for c in REPRESENTATIVE:
             if c != 'BinaryValueCmdObject':
                 ops([c], 'wide2', 600)
@@ -627,7 +633,7 @@ def instances(tier):
                 for v in ("0-" if 'symint' in FAMILIES[FAMILY_OF[c]] else "01-"):
                     ops([c], [[lead, v, "pv"]] + [["p2", "01-", "pv"]] * 4, 600,
                         tag="deep5/first=%s%s" % (lead, v))
-        for c in ['LightingOutputCmdObject', 'IntegerValueCmdObject']:
+        for c in ['LightingOutputCmdObject']:
             for lead in PRIO_SETS['p4']:
                 ops([c], [[lead, "0", "pv"], ["wide", "1-", "pv"], ["wide", "0-", "pv"]], 600,
                     tag="wide3/first=%s" % lead)
